@@ -2721,9 +2721,9 @@ class VM:
         frame = self.call_stack[-1]
         source_map = getattr(frame.func, "source_map", None)
         if source_map:
-            # Find the closest source location at or before current IP
-            # Walk backwards from current IP to find a mapped position
-            for ip in range(frame.ip, -1, -1):
+            # frame.ip is already past the instruction being executed: walk
+            # backwards from its last byte to the closest mapped position
+            for ip in range(frame.ip - 1, -1, -1):
                 if ip in source_map:
                     return source_map[ip]
         return None, None
